@@ -213,6 +213,29 @@ def oracle_c10(case):
         for item in re.findall(r"\d+~0~([^~;\s]*)~([^~;\s]*)", r) if op in ("q", "bq") else []:
             if item != ("-", "-"):
                 fails.append(("c10-not-found-carries-data", i, "`%s`: a not-found answer carries data: %s" % (l, r)))
+    # a namespace selector never matches a document of another namespace: the namespace a document has is the one of the
+    # REQUEST that last wrote it (tracked only where that is certain: acknowledged single inserts; anything a batch, a delete
+    # or a restart may have touched becomes unknown until the next acknowledged insert)
+    wrote = {}
+    for i, (l, r) in enumerate(zip(raw, impl)):
+        op, t = op_of(l), tenant_of(l)
+        f = dict(p.split("=", 1) for p in l.split(" ")[1:] if "=" in p)
+        if op == "ins" and r.startswith("ok success=1"):
+            wrote[(t, f["id"])] = f.get("ns", "-")
+        elif op in ("bins", "bload"):
+            for it in f.get("docs", "").split("/"):
+                wrote.pop((t, it.split(";")[0]), None)
+        elif op == "del":
+            wrote.pop((t, f.get("id")), None)
+        elif op in ("bd", "bdf"):
+            for key in [k for k in wrote if k[0] == t]:
+                wrote.pop(key)
+        elif op == "q" and r.startswith("ok ") and f.get("ns", "-") != "-":
+            m = re.match(r"ok (\d+)~1~", r)
+            if m and (t, m.group(1)) in wrote and wrote[(t, m.group(1))] != f["ns"]:
+                fails.append(("c10-namespace-mismatch", i, "`%s` finds document %s, which tenant %s last wrote with namespace `%s`: %s" % (
+                    l, m.group(1), t, wrote[(t, m.group(1))], r)))
+                break
     # a client filter must not be evaluated against the server-owned keys (they "cannot be seen"): where the model - which
     # agrees with the server on this answer - says a client blind to those keys would have got another answer
     for i, (l, r, m) in enumerate(zip(raw, impl, case.get("model", []))):
@@ -355,6 +378,7 @@ def gen_case(rng, n_ops=40, focus="c10"):
         weights.update({"search": 2, "bsearch": 0, "q": 3, "um": 2, "probe": 8, "restart": 4, "ins": 34, "bload": 8,
                         "bins": 8, "bd": 8, "del": 12})
     kinds = [k for k, w in weights.items() for _ in range(w)]
+    known = {}
     for _ in range(n_ops):
         k = rng.choice(kinds)
         t = rng.choice(names)
@@ -367,11 +391,33 @@ def gen_case(rng, n_ops=40, focus="c10"):
             k = rng.choice(["ins", "q", "search", "del", "bd", "flush", "usage", "bq", "um", "bins", "bload", "bdf", "bsearch"])
         if k == "ins":
             v = gen_vec(rng, dim if rng.random() < 0.94 else dim + 1)
-            ops.append("ins t=%s id=%d v=%s m=%s ns=%s" % (t, rng.choice(idp), show_vec(v), show_meta(gen_meta(rng, names)), ns))
+            i = rng.choice(idp)
+            ops.append("ins t=%s id=%d v=%s m=%s ns=%s" % (t, i, show_vec(v), show_meta(gen_meta(rng, names)), ns))
+            if len(v) == dim and t not in NOKEY and 1 <= i < 2 ** 32:
+                known.setdefault(t, {})[i] = ns               # the generator's own rough idea of what exists (aiming aid only)
         elif k == "del":
             ops.append("del t=%s id=%d ns=%s" % (t, rng.choice(idp), ns))
         elif k == "um":
-            ops.append("um t=%s id=%d m=%s merge=%d ns=%s" % (t, rng.choice(idp), show_meta(gen_meta(rng, names)), rng.randint(0, 1), ns))
+            i = rng.choice(idp)
+            md = gen_meta(rng, names)
+            um_ns = ns
+            if rng.random() < 0.35:
+                # aimed at the server-owned keys: try to plant one on a document that (probably) exists - half of the time one
+                # written WITHOUT a namespace - then look for the document where it would now be
+                plain = [d for d, n in known.get(t, {}).items() if n == "-"]
+                anyd = list(known.get(t, {}))
+                if plain and rng.random() < 0.6:
+                    i = rng.choice(plain)
+                elif anyd:
+                    i = rng.choice(anyd)
+                md[rng.choice(RESK + ["__namespace__"])] = rng.choice(["n1", "n2", "n1", names[-1], "0", "1"])
+                um_ns = "-" if rng.random() < 0.7 else known.get(t, {}).get(i, "-")
+            ops.append("um t=%s id=%d m=%s merge=%d ns=%s" % (t, i, show_meta(md), rng.randint(0, 1), um_ns))
+            if any(k2 in md for k2 in RESK):
+                for probe_ns in ("-", hexs("n1"), hexs("n2")):
+                    ops.append("q t=%s id=%d ns=%s emb=0" % (t, i, probe_ns))
+                other = rng.choice([n for n in names if n != t])
+                ops.append("q t=%s id=%d ns=- emb=0" % (other, i))
         elif k == "q":
             ops.append("q t=%s id=%d ns=%s emb=%d" % (t, rng.choice(idp), ns, rng.randint(0, 1)))
         elif k == "bq":
